@@ -7,15 +7,23 @@ package main
 
 import (
 	"bytes"
+	"errors"
 	"fmt"
+	"os"
+	"os/exec"
 	"strings"
 	"unicode"
 
 	"github.com/hedzr/is/term/color"
+	errorsv3 "gopkg.in/hedzr/errors.v3"
+
 	"github.com/hedzr/logg/slog"
 )
 
-func init() { props["C06"] = runC06 }
+func init() {
+	props["C06"] = runC06
+	childModes["c06test"] = c06Test
+}
 
 // sgrCheck walks the payload; returns a description of the first place where a colour is still on
 // at a line break or at the end, or a malformed escape sequence.
@@ -49,6 +57,40 @@ func sgrCheck(p []byte) string {
 	}
 	if on {
 		return "a colour is still on at the end of the record"
+	}
+	return ""
+}
+
+// sgrCheckDump: like sgrCheck for the first ownLines line breaks and for the end of the payload;
+// line breaks after that (the error dump) are exempt.
+func sgrCheckDump(p []byte, ownLines int) string {
+	on := false
+	lf := 0
+	for i := 0; i < len(p); i++ {
+		switch p[i] {
+		case 0x1b:
+			if i+1 >= len(p) || p[i+1] != '[' {
+				return fmt.Sprintf("stray ESC at %d", i)
+			}
+			j := i + 2
+			for j < len(p) && (p[j] >= '0' && p[j] <= '9' || p[j] == ';') {
+				j++
+			}
+			if j >= len(p) || p[j] != 'm' {
+				return fmt.Sprintf("escape sequence at %d is not an SGR sequence", i)
+			}
+			params := string(p[i+2 : j])
+			on = !(params == "0" || params == "")
+			i = j
+		case '\n':
+			lf++
+			if on && lf <= ownLines {
+				return fmt.Sprintf("a colour is still on at line break %d (byte %d) of the record itself", lf, i)
+			}
+		}
+	}
+	if on {
+		return "a colour or attribute is still on at the end of the record"
 	}
 	return ""
 }
@@ -237,5 +279,93 @@ func runC06(r *run) {
 			r.sample(map[string]any{"record": encDescribe(c), "stripped": string(plain)})
 		}
 	}
+	// in go-test mode an error value with a stack trace is followed by a dump of its origin inside the
+	// same payload: colour hygiene holds for that part as well (the twin binary, oracle only)
+	if exe := os.Getenv("VERIF_HARNESS"); exe != "" {
+		if err := r.mergeChild(exec.Command(exe+".test", "-test.v", "c06test", fmt.Sprint(r.seed), r.tier)); err != nil {
+			r.violate(violation{What: "the go-test-mode twin of the harness failed: " + err.Error()})
+		}
+	}
 	slog.VerifResetGlobals()
+}
+
+// c06test <seed> <tier>: colored records carrying error values (plain, joined, with stack traces) in go-test mode
+func c06Test(a []string) {
+	seed, tier := uint64(1), "quick"
+	if len(a) >= 2 {
+		fmt.Sscan(a[0], &seed)
+		tier = a[1]
+	}
+	dir, err := os.MkdirTemp("", "c06test")
+	must(err)
+	defer os.RemoveAll(dir)
+	r := newRun("C06", seed+104651, tier, dir)
+	g := &rng{s: r.seed*7 + 6}
+	if !slog.VerifErrorDumpActive() {
+		r.violate(violation{What: "harness: the twin is not in go-test mode (the error dump is off)"})
+	}
+	n := 300
+	if tier == "thorough" {
+		n = 4000
+	}
+	slog.VerifResetGlobals()
+	for i := 0; i < n; i++ {
+		rec := &recorder{}
+		l := slog.New(fmt.Sprintf("c06t-%d", i)).SetWriter(rec).SetErrorWriter(rec).SetLevel(slog.TraceLevel).SetColorMode(true)
+		fl := slog.LstdFlags | slog.LnoInterrupt
+		if g.chance(1, 2) {
+			fl &^= slog.Lcaller
+		}
+		slog.SetFlags(fl)
+		var e error
+		kind := g.intn(4)
+		switch kind {
+		case 0:
+			e = errorsv3.New("an error with a stack trace %d", i)
+		case 1:
+			e = errors.New("a plain error")
+		case 2:
+			e = errors.Join(errors.New("first"), errors.New("second"))
+		default:
+			e = fmt.Errorf("wrapped: %w", errorsv3.New("inner with stack"))
+		}
+		args := []any{"err", e}
+		if g.chance(1, 2) {
+			args = append(args, "zone", "eu", "n", i)
+		}
+		if g.chance(1, 3) {
+			args = append([]any{"a", 1}, args...)
+		}
+		msg := []string{"failed", "failed\nsecond line", "failed\nsecond line\n", "   lead"}[g.intn(4)]
+		verb := g.intn(3)
+		func() {
+			defer func() { _ = recover() }()
+			switch verb {
+			case 0:
+				l.Error(msg, args...)
+			case 1:
+				l.Info(msg, args...)
+			default:
+				l.Warn(msg, args...)
+			}
+		}()
+		w := rec.take()
+		r.seen(fmt.Sprintf("testmode|%d|%d|%v", kind, verb, fl&slog.Lcaller != 0))
+		for _, p := range w {
+			// the lines of the record itself end with every colour off; the error dump that follows them
+			// may keep one colour across its own lines (the statement allows that) but the payload as a
+			// whole ends with everything off
+			ownLines := strings.Count(strings.TrimRight(msg, "\n"), "\n") + 1
+			if strings.HasSuffix(msg, "\n") && ownLines > 1 {
+				ownLines++
+			}
+			if d := sgrCheckDump(p, ownLines); d != "" {
+				r.violate(violation{What: "colour hygiene (go-test mode, error dump): " + d,
+					Input:  map[string]any{"error_kind": []string{"errors.v3 with stack", "plain", "joined", "wrapped errors.v3"}[kind], "message": fmt.Sprintf("%q", msg), "caller_flag": fl&slog.Lcaller != 0, "args": len(args) / 2},
+					Actual: fmt.Sprintf("%q", p)})
+				break
+			}
+		}
+	}
+	r.reportAsChild()
 }
